@@ -228,10 +228,16 @@ func checkEnc(scen string, in EncIn) []*mc.Violation {
 	if err != nil {
 		return []*mc.Violation{mc.V(scen, "encoded-reads-back", in, "readable", fmt.Sprintf("%q: %v", b.String(), err), feats...)}
 	}
-	if len(ps) != len(in.Paras) {
-		return []*mc.Violation{mc.V(scen, "same-number-of-paragraphs", in, fmt.Sprint(len(in.Paras)), fmt.Sprintf("%d from %q", len(ps), b.String()), feats...)}
+	var wantParas []In // the paragraphs that have at least one field
+	for _, p := range in.Paras {
+		if len(p.Names) > 0 {
+			wantParas = append(wantParas, p)
+		}
 	}
-	for i, p := range in.Paras {
+	if len(ps) != len(wantParas) {
+		return []*mc.Violation{mc.V(scen, "same-number-of-paragraphs", in, fmt.Sprint(len(wantParas)), fmt.Sprintf("%d from %q", len(ps), b.String()), feats...)}
+	}
+	for i, p := range wantParas {
 		if strings.Join(ps[i].Order, "\x00") != strings.Join(p.Names, "\x00") {
 			return []*mc.Violation{mc.V(scen, "same-fields-same-order", in, fmt.Sprint(p.Names), fmt.Sprint(ps[i].Order), feats...)}
 		}
@@ -250,8 +256,8 @@ func checkEnc(scen string, in EncIn) []*mc.Violation {
 			n++
 		}
 	}
-	if n != len(in.Paras) || err != io.EOF {
-		return []*mc.Violation{mc.V(scen, "same-number-of-paragraphs", in, fmt.Sprint(len(in.Paras)), fmt.Sprintf("decoder: %d then %v", n, err), feats...)}
+	if n != len(wantParas) || err != io.EOF {
+		return []*mc.Violation{mc.V(scen, "same-number-of-paragraphs", in, fmt.Sprint(len(wantParas)), fmt.Sprintf("decoder: %d then %v", n, err), feats...)}
 	}
 	return nil
 }
@@ -290,6 +296,11 @@ func Run(r *mc.Run) {
 	r.Assume = []string{"values are sequences of text lines without trailing blanks; the first line is non-empty and not indented (otherwise the value is not representable: the reader trims the first line and treats an empty first line as 'starts on the next line')"}
 
 	vals := lineValues(r.Pick(4, 5))
+	// logical lines around the buffer sizes of bufio (4096) and the token limit of bufio.Scanner (65536), alone and between others
+	for _, n := range []int{4095, 4096, 4097, 65535, 65536, 65537, 200000} {
+		long := strings.Repeat("x", n)
+		vals = append(vals, long, "a\n"+long+"\nb\n", long+"\n\n"+long, "first\n "+long)
+	}
 	r.Scenario("single-field-values", map[string]interface{}{"values": len(vals), "max_lines": r.Pick(4, 5)}, 16, func(sh int, st *mc.Stats) bool {
 		for i := sh; i < len(vals); i += 16 {
 			in := In{[]string{"Key"}, []string{vals[i]}, false}
@@ -387,6 +398,56 @@ func Run(r *mc.Run) {
 		return true
 	})
 
+	// a struct that embeds the raw paragraph next to typed members, written through the encoder: fields the struct does not
+	// know - including names that differ from a member's key only in letter case - are the reader's and go back unchanged
+	type wrapped struct {
+		control.Paragraph
+		Homepage string
+		Section  string
+		Bugs     string `control:"Bugs"`
+	}
+	wdocs := []string{
+		"Package: x\nHomePage: https://example.org\nsection: Devel\nBUGS: mailto:a@b\n",
+		"Package: x\nHomepage: https://example.org/a\nHOMEPAGE: https://example.org/b\n",
+		"homepage: h\nPackage: x\nSection: devel\nsection: again\n",
+		"Package: x\nX-Other: y\nbugs: lower\nBugs: proper\n",
+		"Package: x\nSection: devel\nHomePage: kept\n",
+	}
+	r.Scenario("typed-wrapper-over-raw-paragraph", map[string]interface{}{"documents": len(wdocs), "members": "Homepage Section Bugs", "note": "read, encode the struct, read: same fields in the same order with the same values"}, len(wdocs), func(i int, st *mc.Stats) bool {
+		st.Evals++
+		st.Traces++
+		st.Nontrivial++
+		in := In{Names: []string{"document"}, Values: []string{wdocs[i]}}
+		orig, err := readAll(wdocs[i])
+		if err != nil || len(orig) != 1 {
+			st.Class("reader-error")
+			return true
+		}
+		var w wrapped
+		var out bytes.Buffer
+		var e2 error
+		if p, msg := mc.Guard(func() {
+			if e2 = control.Unmarshal(&w, strings.NewReader(wdocs[i])); e2 == nil {
+				e2 = control.Marshal(&out, &w)
+			}
+		}); p || e2 != nil {
+			st.Violate(mc.V("typed-wrapper-over-raw-paragraph", "write-succeeds", in, "decode and encode succeed", fmt.Sprint(msg, e2)))
+			return true
+		}
+		back, err := readAll(out.String())
+		if err != nil || len(back) != 1 {
+			st.Violate(mc.V("typed-wrapper-over-raw-paragraph", "written-form-reads-back", in, "one paragraph", fmt.Sprintf("%q: %v", out.String(), err)))
+			return true
+		}
+		if a, b := gen.CanonRef([]gen.RefPara{{Order: orig[0].Order, Values: orig[0].Values}}), gen.CanonRef([]gen.RefPara{{Order: back[0].Order, Values: back[0].Values}}); a != b {
+			st.Violate(mc.V("typed-wrapper-over-raw-paragraph", "same-fields-same-order", in, a, b))
+			st.Class("changed")
+		} else {
+			st.Class("identity")
+		}
+		return true
+	})
+
 	// encoder sequences
 	reps := []In{
 		{[]string{"A"}, []string{"v"}, false},
@@ -396,6 +457,7 @@ func Run(r *mc.Run) {
 		{[]string{"A"}, []string{""}, false},
 		{[]string{"A", "B"}, []string{"v\nw", ""}, false},
 		{[]string{"Description"}, []string{"short\nlong line\n\nmore\n"}, false},
+		{nil, nil, false}, // a paragraph without fields: it contributes nothing, and must not glue its neighbours together
 	}
 	var seqs []EncIn
 	for _, a := range reps {
